@@ -35,9 +35,7 @@ CLAIMED = {
    technique='Lean 4 theorems over control-flow IR extracted from the source + invariant over all interleavings; subprocess fault exploration for the runtime part',
    design='§7 C15'),
  'C16': dict(
-   text='Theorem cert_sound (all regexes, strings, states): a certificate computed from the shape of an expression bounds the number of derivations and the size of the complete backtracking search tree by c*N^d; '
-        'rules_poly_or_template (decide over the regenerated table): every rule has a certificate or is a quoted-string rule of shape q(qq|\\q|[^q])*q, for which string_rules_poly proves a linear bound by a parity argument; '
-        'every_rule_poly: every rule of the table has a polynomial bound. Timing harness: pump strings for every rule/prefix/suffix tokenized in killable subprocesses under a budget.',
+   text='Theorem cert_sound (all regexes, strings, states): a certificate computed from the shape of an expression bounds the number of derivations and the size of the complete backtracking search tree by c*N^d; rules_poly_or_template (decide over the regenerated table): every rule has a certificate or is a quoted-string rule of shape q(qq|\\q|[^q])*q, for which string_rules_poly proves a linear bound by a parity argument; every_rule_poly; lex_work_poly — the WHOLE lexer: the total size of the search trees of all match attempts of the scan loop is at most c*(n+1)^d with c, d decided from the table (lex_degree, lex_coefficient). Timing harness: pump strings for every rule/prefix/suffix tokenized in killable subprocesses under a budget; the model work measure (lexwork) is evaluated on pump strings of two sizes and its growth exponent reported.',
    note='Trusted: Lean kernel; translator; assumption that CPython re explores at most the modelled search tree (wall-clock is only measured).',
    technique='Lean 4 theorem by structural induction over regex AST (polynomial certificate soundness) + parity argument for the string template + decide over regenerated table + timing exploration',
    design='§7 C16'),
@@ -77,18 +75,17 @@ CLAIMED = {
    technique='Lean 4 theorems (index-range invariants per pass, interpreter of the regenerated option table, accessor totality) + exploration of exceptions on the real code',
    design='§7 C07'),
  'C11': dict(
-   text='Theorems: split_view_invariant (the splitter sees tokens only through a view invariant under whitespace and keyword-case re-spelling); respell_group — all 25 grouping passes commute with every admissible re-spelling of the leaves (keyword letter case, whitespace inside multi-word keywords, values of whitespace tokens): same classes, shape, leaf types and errors, for every input and fuel. Oracle (metamorphic, real code): each grammar script re-spelled (whitespace runs, inner whitespace of multi-word keywords, keyword case): statement count, get_type and tree shape compared; DOMAIN(view), S-TREE on both spellings.',
-   note='Partial: invariance under changing the NUMBER/TYPE of whitespace tokens (one token per whitespace character) is metamorphic exploration, not a theorem yet. Three genuine defects repaired (770a1b4, c10144b, 3d621f2).',
+   text='Theorems: split_view_invariant (the splitter sees tokens only through a view invariant under whitespace and keyword-case re-spelling); respell_group — all 25 grouping passes commute with every admissible re-spelling of the leaves (keyword letter case, whitespace inside multi-word keywords, values of whitespace tokens); whitespace_count_invariant — on the decidable domain InDomain (no comment token, no := token, WsDomain) two statements with the same non-whitespace tokens and whitespace in the same gaps group to trees with identical skeletons (same classes, nesting and significant leaves), and grouping with all whitespace deleted gives that skeleton (group_skel_canonical). Outside the domain the statement is false for the library (KF-C11-1/2, witnessed on the real code). Oracle (metamorphic, real code): each grammar script re-spelled (whitespace runs, inner whitespace of multi-word keywords, keyword case): statement count, get_type and tree shape compared; DOMAIN(view), DOMAIN(wsdomain), S-TREE on both spellings.',
+   note='The lexical step (a re-spelled text lexes to WsEquiv token lists) is part of the metamorphic oracle. Three genuine defects repaired (770a1b4, c10144b, 3d621f2); known findings KF-C11-1 (comment runs), KF-C11-2 (:= stale indexes).',
    technique='Lean 4 theorems (view abstraction of the splitter; leaf-wise re-spelling commutation lifted through all passes) + metamorphic exploration on the real code + differential correspondence',   design='§7 C11'),
  'C12': dict(
    text='Theorems: accessors on every Identifier of canonical shape return the written parts with quotes removed; respell_group_names — grouping commutes with re-spelling the VALUES of Name/String.Symbol leaves, keyword case and whitespace values (all 25 passes); accessors_of_checked_skeleton — from one skeleton whose check evaluates to true to every admissible spelling; the table of 19 contexts x 30 reference forms (570 statement skeletons: select/FROM lists up to 3 items, JOIN, UPDATE, INSERT, subqueries; plain/quoted parts; AS/implicit alias) is decided by the kernel through the whole model pipeline (thorough tier, SqlPropsSlow.C12Table: identifier_accessors_in_context) and evaluated by the compiled driver in the quick tier. DOMAIN(skeleton): every skeleton and random admissible renamings of it on the real code; oracle with planted references; S-TREE/S-ACC.',
    note='Enumerated, not universal: contexts, list length <= 3, one whitespace token between lexemes. Names that are contiguous pieces of CREATE/TABLE/AS are excluded by the admissibility hypothesis (group_functions reads child texts).',
    technique='Lean 4 theorems: parametricity of grouping in identifier spellings + kernel-decided finite table + accessor theorems; oracle with planted references + differential correspondence',   design='§7 C12'),
  'C13': dict(
-   text='Theorems: where_extent (first WHERE heads a group up to the first later closing keyword of the regenerated Where.M_CLOSE, else to the last groupable child; every iteration likewise; none left ungrouped), get_identifiers_spec, get_cases_spec/total, get_parameters/Comparison error characterisations; decide obligations that Where.M_OPEN/M_CLOSE are the lists the property names. Oracle: queries built from known parts (WHERE x every closer x several WHEREs per level x nesting, lists, calls, CASE, comparisons, typed literals).',
-   note='Partial: that lists/calls/CASE/comparisons are grouped as the accessor theorems assume is sampled. One defect repaired (8630182); known findings KF-C13-1, KF-C13-2.',
-   technique='Lean 4 theorems over the grouping and accessor models + decide over regenerated class tables + oracle with constructed queries',
-   design='§7 C13'),
+   text='Theorems: where_extent (first WHERE heads a group up to the first later closing keyword of the regenerated Where.M_CLOSE, else to the last groupable child; every iteration likewise; none left ungrouped) for every input; accessor specs (get_identifiers, get_cases, get_parameters, Comparison left/right); clause nodes IN CONTEXT by parametricity + table: the table-independent core (identifier_list/parameters/cases/comparison/typed_literal_of_checked_skeleton: from one skeleton whose check evaluates to true to every admissible re-spelling of all leaf values except punctuation/operators, keyword case, whitespace values, every fuel) is proved in the quick tier; the table of 290 statement skeletons (lists of 2-3 items over nine item forms, calls, CASE, comparisons, typed literals with every unit, each in several contexts; the known findings pinned as decided NEGATIVE facts) is decided by the kernel through the whole model pipeline in the thorough tier (SqlPropsSlow.C13Table) and evaluated by the compiled driver in the quick tier. DOMAIN(clause): every skeleton, pinned or not, agrees with the real code. Oracle with constructed queries incl. a dictionary-wide Where-extent sweep (exactly the listed closers end the clause).',
+   note='One defect repaired (8630182); known findings KF-C13-1 (single expression argument), KF-C13-2 (literal with implicit alias / bare parenthesis as a list item), KF-C13-3 (typed literal as a list item).',
+   technique='Lean 4 theorems over the grouping and accessor models: parametricity of grouping in leaf values + kernel-decided finite table; decide over regenerated class tables; oracle with constructed queries and dictionary sweep',   design='§7 C13'),
  'C18': dict(
    text='Theorems: get_type on any tree with a leading DML/DDL keyword is its normalised spelling; leading_keyword_survives_grouping + get_type_after_grouping — for every flat statement whose first non-whitespace/comment token is a DML/DDL keyword (decidable LeadHyp: next token is not :: / time-zone cast, no := in the statement; each exclusion witnessed on the real code) the keyword is still the first significant child after all 25 passes and get_type() is its normalised value, whatever follows; UNKNOWN for empty statements; CTE walk fuel irrelevance. DOMAIN(leadhyp): hypothesis evaluated by the driver per generated statement and the prediction compared with the real get_type(); oracle; S-ACC.',
    note='Partial: the CTE clause (WITH … <DML>) is sampled. Known finding KF-C18-1 (keyword directly before ( or .).',
